@@ -206,6 +206,44 @@ func mkElem[E any](f pfF[E], mod, k *big.Int, via int, m int64) (E, error) {
 
 func feInt[E pfE[E]](e E) *big.Int { return new(big.Int).SetBytes(e.Bytes()) }
 
+// minaCurve returns a copy of a Pasta model curve whose generator is the MINA one the library
+// documents ("this is for MINA, zcash is using different generator", pasta/impl/ep_params.go);
+// refcurve carries the Zcash generator (-1, 2). The ordinate is typed in from the Mina
+// specification (decimal), not read from the library.
+func minaCurve(c *refcurve.Curve, gy string) *refcurve.Curve {
+	y, ok := new(big.Int).SetString(gy, 10)
+	if !ok {
+		panic("bad constant")
+	}
+	cc := *c
+	g, err := cc.FromAffine(big.NewInt(1), y)
+	if err != nil {
+		panic("Mina generator not on " + c.Name + ": " + err.Error())
+	}
+	cc.G = g
+	return &cc
+}
+
+var (
+	refPallas = sync.OnceValue(func() *refcurve.Curve {
+		return minaCurve(refcurve.Pallas(), "12418654782883325593414442427049395787963493412651469444558597405572177144507")
+	})
+	refVesta = sync.OnceValue(func() *refcurve.Curve {
+		return minaCurve(refcurve.Vesta(), "11426906929455361843568202299992114520848200991084027513389447476559454104162")
+	})
+)
+
+// refX is the curve25519 model with the generator the library designates: (9, p - V) where V is
+// the RFC 7748 ordinate. The library obtains its Montgomery coordinates from the Edwards ones with
+// the other square root of -486664 than RFC 7748 section 4.1, i.e. through the RFC map composed
+// with the negation automorphism (u, v) -> (u, -v); reported to the lead as an observation. All
+// group operations are compatible with that automorphism, so the model is used with G negated.
+var refX = sync.OnceValue(func() *refcurve.Curve {
+	cc := *refcurve.Curve25519()
+	cc.G = cc.Neg(cc.G)
+	return &cc
+})
+
 // fpCodec converts coordinates of curves over a prime field (big-endian wrappers).
 func fpCodec[F pfE[F]](bf pfF[F], ref *refcurve.Curve) (func(refcurve.Point) (F, F, error), func(F, F) (refcurve.Point, error)) {
 	in := func(q refcurve.Point) (x, y F, err error) {
@@ -284,7 +322,7 @@ var newP256 = sync.OnceValue(func() *tP256 {
 
 var newPallas = sync.OnceValue(func() *tPallas {
 	c := pasta.NewPallasCurve()
-	ref := refcurve.Pallas()
+	ref := refPallas()
 	in, out := fpCodec(pasta.NewPallasBaseField(), ref)
 	return &G[*pasta.PallasPoint, *pasta.PallasBaseFieldElement, *pasta.PallasScalar]{
 		name: "pallas", ref: ref, cv: c, sf: pasta.NewPallasScalarField(), feIn: in, feOut: out,
@@ -294,7 +332,7 @@ var newPallas = sync.OnceValue(func() *tPallas {
 
 var newVesta = sync.OnceValue(func() *tVesta {
 	c := pasta.NewVestaCurve()
-	ref := refcurve.Vesta()
+	ref := refVesta()
 	in, out := fpCodec(pasta.NewVestaBaseField(), ref)
 	return &G[*pasta.VestaPoint, *pasta.VestaBaseFieldElement, *pasta.VestaScalar]{
 		name: "vesta", ref: ref, cv: c, sf: pasta.NewVestaScalarField(), feIn: in, feOut: out,
@@ -332,11 +370,11 @@ func edToMont(v *edwards25519Impl.Point) (refcurve.Point, bool) {
 	if err != nil {
 		return refcurve.Point{}, false
 	}
-	return refcurve.EdwardsToMontgomery(e), true
+	return refcurve.Curve25519().Neg(refcurve.EdwardsToMontgomery(e)), true // the library's sign convention, see refX
 }
 
 func montToEd(q refcurve.Point, v *edwards25519Impl.Point) bool {
-	e := refcurve.MontgomeryToEdwards(q)
+	e := refcurve.MontgomeryToEdwards(refcurve.Curve25519().Neg(q)) // the library's sign convention, see refX
 	xb, yb := refcurve.Ed25519().AffineBytesLE(e)
 	var x, y edwards25519Impl.Fp
 	if x.SetBytes(xb) != 1 || y.SetBytes(yb) != 1 {
@@ -347,7 +385,7 @@ func montToEd(q refcurve.Point, v *edwards25519Impl.Point) bool {
 
 var newCurve25519 = sync.OnceValue(func() *tX {
 	c := curve25519.NewCurve()
-	ref := refcurve.Curve25519()
+	ref := refX()
 	in, out := fpCodec(curve25519.NewBaseField(), ref)
 	return &G[*curve25519.Point, *curve25519.BaseFieldElement, *curve25519.Scalar]{
 		name: "curve25519", ref: ref, full: true, cv: c, sf: curve25519.NewScalarField(), feIn: in, feOut: out,
@@ -361,7 +399,7 @@ var newCurve25519 = sync.OnceValue(func() *tX {
 
 var newCurve25519Prime = sync.OnceValue(func() *tXPrime {
 	c := curve25519.NewPrimeSubGroup()
-	ref := refcurve.Curve25519()
+	ref := refX()
 	in, out := fpCodec(curve25519.NewBaseField(), ref)
 	return &G[*curve25519.PrimeSubGroupPoint, *curve25519.BaseFieldElement, *curve25519.Scalar]{
 		name: "curve25519prime", ref: ref, cv: c, sf: curve25519.NewScalarField(), feIn: in, feOut: out,
